@@ -5,6 +5,7 @@ package geom
 func init() {
 	vfHarnesses["C13_hull_3"] = vfhC13Hull3
 	vfHarnesses["C13_hull_4"] = vfhC13Hull4
+	vfHarnesses["C13_hull_empty_members"] = vfhC13HullEmptyMembers
 	vfHarnesses["C13_hull_4_sorted"] = vfhC13Hull4Sorted
 }
 
@@ -110,5 +111,30 @@ func vfhC13Hull4Sorted() {
 	vfAssume(vfAnd(a.X <= b.X, vfAnd(b.X <= c.X, c.X <= d.X)))
 	h := vfMultiPointXY(a, b, c, d).ConvexHull()
 	vfCheckHull(h, []XY{a, b, c, d})
+	vfReach("end")
+}
+
+// Empty members are no control points: the hull of a MultiPoint (or a
+// collection) with an EMPTY member at any position is the hull of the rest.
+func vfhC13HullEmptyMembers() {
+	a, b, c := vfPt("a"), vfPt("b"), vfPt("c")
+	pts := []Point{vfPointXY(a), vfPointXY(b), vfPointXY(c)}
+	e := NewEmptyPoint(DimXY)
+	var withEmpty []Point
+	switch vfInt("empty-at", 0, 3) {
+	case 0:
+		withEmpty = []Point{e, pts[0], pts[1], pts[2]}
+	case 1:
+		withEmpty = []Point{pts[0], e, pts[1], pts[2]}
+	case 2:
+		withEmpty = []Point{pts[0], pts[1], e, pts[2]}
+	default:
+		withEmpty = []Point{pts[0], pts[1], pts[2], e}
+	}
+	plain := NewMultiPoint(pts).ConvexHull()
+	h := NewMultiPoint(withEmpty).ConvexHull()
+	vfAssert(ExactEquals(h, plain), "the hull ignores an EMPTY member wherever it sits")
+	gc := NewGeometryCollection([]Geometry{NewMultiPoint(withEmpty).AsGeometry(), LineString{}.AsGeometry()}).AsGeometry()
+	vfAssert(ExactEquals(gc.ConvexHull(), plain), "also inside a collection")
 	vfReach("end")
 }
